@@ -219,6 +219,11 @@ def main():
                 continue
             if args.name and args.name not in d:
                 continue
+            if meta.get("obsolete"):
+                # a later repair of /repo removed the only construct this change could bite: with the patch applied its own
+                # demonstration passes again, so on the current tree it does not break the property any more
+                print(f"OBSOLETE     {prop} {d}  {meta['obsolete'][:150]}", flush=True)
+                continue
             jobs.append((prop, d, patch_mutant(os.path.join(sd, d, "patch.diff"))))
     if args.cmd == "list":
         for prop, name, _ in jobs:
